@@ -241,31 +241,38 @@ Theorem C18_angle_with_outer_layout : forall k ss so (X Y S : list rot),
 Proof. exact awo_layout. Qed.
 Print Assumptions C18_angle_with_outer_layout.
 
+(* for a PROPER pair the two symmetry reductions agree for every list of unit
+   symmetry elements, improper ones included (eager zeroes them, lazy filters them) *)
+Theorem C18_symmetry_reduction_proper_pair : forall (S : list rot) (m : quat),
+  qnorm2 ROps m = 1 -> Forall (fun s => qnorm2 ROps (fst s) = 1) S ->
+  sym_dot_eager ROps S (m, false) = sym_dot_lazy ROps S m.
+Proof. exact sym_dot_proper. Qed.
+Print Assumptions C18_symmetry_reduction_proper_pair.
+
 (* FULL clause: angle_with_outer(lazy=True) = angle_with_outer(lazy=False) for all operands.
-   REFUTED (improper flags): an improper `other` under a proper group, and a
-   proper pair under a group with an improper element and no inversion centre
-   ({1, m_z}): eager angle pi, lazy angle 0 *)
+   REFUTED (improper flag of `other`): the lazy path never looks at the improper
+   flags of the orientations; an improper `other` under the group {1} gives
+   eager angle pi, lazy angle 0 *)
 Theorem C18_angle_with_outer_lazy_improper_refuted :
-  (ang ROps (sym_dot_eager ROps [((1, 0, 0, 0), false)] ((1, 0, 0, 0), true)) = PI /\
-   ang ROps (sym_dot_lazy ROps [((1, 0, 0, 0), false)] (1, 0, 0, 0)) = 0) /\
-  (ang ROps (sym_dot_eager ROps [((1, 0, 0, 0), false); ((0, 0, 0, 1), true)] ((0, 0, 0, 1), false)) = PI /\
-   ang ROps (sym_dot_lazy ROps [((1, 0, 0, 0), false); ((0, 0, 0, 1), true)] (0, 0, 0, 1)) = 0).
-Proof. exact awo_lazy_improper_refuted. Qed.
+  exists k ss so (X Y S : list rot),
+    (0 < k)%nat /\ length X = size ss /\ length Y = size so /\ all_unit X /\ all_unit Y /\ all_unit S /\
+    awo_lazy ROps k ss so X Y S <> awo_eager ROps ss so X Y S.
+Proof. exact awo_lazy_improper_refuted_arrays. Qed.
 Print Assumptions C18_angle_with_outer_lazy_improper_refuted.
 
-(* OUTSIDE THE FINDING (unit quaternions, no improper flag on `other` nor on the
-   symmetry elements; flags of self are dropped by both modes): lazy = eager,
-   shape and values, for every chunk size and every pair of shapes *)
+(* OUTSIDE THE FINDING (unit quaternions, no improper flag on `other`; flags of
+   self are dropped by both modes; symmetry elements proper or improper):
+   lazy = eager, shape and values, for every chunk size and every pair of shapes *)
 Theorem C18_angle_with_outer_outside_finding : forall k ss so (X Y S : list rot),
   (0 < k)%nat -> length X = size ss -> length Y = size so ->
-  all_unit X -> all_unit Y -> all_unit S -> all_proper Y -> all_proper S ->
+  all_unit X -> all_unit Y -> all_unit S -> all_proper Y ->
   awo_lazy ROps k ss so X Y S = awo_eager ROps ss so X Y S.
 Proof. exact awo_lazy_eq_eager. Qed.
 Print Assumptions C18_angle_with_outer_outside_finding.
 
 (* Orientation.get_distance_matrix(lazy) = angle_with_outer(self, self, lazy) *)
 Theorem C18_orientation_distance_matrix_lazy : forall k s (X S : list rot),
-  (0 < k)%nat -> length X = size s -> all_unit X -> all_unit S -> all_proper X -> all_proper S ->
+  (0 < k)%nat -> length X = size s -> all_unit X -> all_unit S -> all_proper X ->
   awo_lazy ROps k s s X X S = awo_eager ROps s s X X S.
 Proof. exact odm_lazy_eq_eager. Qed.
 Print Assumptions C18_orientation_distance_matrix_lazy.
